@@ -70,3 +70,39 @@ Theorem C01_top_decays_in_C : forall Kx Ky u v Kz lx ly,
   (0 <= fst (eigval ROps.ROps Kx Ky u v Kz lx ly))%R.
 Proof. exact ROpsFacts.ROps_eigval_decays. Qed.
 Goal True. idtac "THEOREM C01_top_decays_in_C". Abort. Print Assumptions C01_top_decays_in_C.
+
+(* CONVERGENCE, height-independent coefficients (every wind, i.e. complex eigenvalue; instance ROps):
+   on ANY grid with layer thicknesses 0 <= dz_j <= dmax the shooting solution of the model differs
+   from the exact decaying solution of the ODE, Q(h) = qh exp(-lam h), P = Q/(Kz lam), by at most
+   |qh| e^B B (and that over |Kz lam| for P) at every node, B = |lam|^4/24 h dmax^3 -> 0 as dmax -> 0;
+   on uniform grids the error at the top tends to 0 as the number of layers grows.
+   (For height-DEPENDENT profiles the asymptotic clause is not proved: C01_convergence_partial.) *)
+From BL Require Proofs.ComplexOrder.
+From Coquelicot Require Import Coquelicot.
+Theorem C01_convergence_partial :
+  (forall (Kx Ky u v Kz lx ly qh : C) (dzs : list R) (dmax : R),
+    (forall d, In d dzs -> (0 <= d <= dmax)%R) ->
+    let lam := eigval ROps.ROps Kx Ky u v Kz lx ly in
+    let layers := C05Proofs.const_layers ROps.ROps Kx Ky u v Kz (map RtoC dzs) in
+    let y1 := final ROps.ROps lx ly layers (RtoC 1, RtoC 0) in
+    let y2 := final ROps.ROps lx ly layers (RtoC 0, qh) in
+    Kz <> RtoC 0 -> lam <> RtoC 0 ->
+    Cminus (snd y1) (Cmult (Cmult Kz lam) (fst y1)) <> RtoC 0 ->
+    let al := alpha ROps.ROps Kz lam (fst y1) (snd y1) (fst y2) (snd y2) in
+    forall k, (k <= length dzs)%nat ->
+    let h := ComplexOrder.height dzs k in
+    let Qa := Cmult qh (ROps.Cexp (Cmult (Copp lam) (RtoC h))) in
+    let Pa := Cdiv (Cmult Qa (Cdiv (RtoC 1) Kz)) lam in
+    let B := (Cmod lam ^ 4 / 24 * h * dmax ^ 3)%R in
+    (Cmod (Cminus (snd (shoot_traj ROps.ROps lx ly layers al qh k)) Qa) <= Cmod qh * (exp B * B))%R /\
+    (Cmod (Cminus (fst (shoot_traj ROps.ROps lx ly layers al qh k)) Pa)
+       <= Cmod qh * (exp B * B) / Cmod (Cmult Kz lam))%R) /\
+  (forall (Kx Ky u v Kz lx ly qh : C) (H : R), (0 <= H)%R ->
+    let lam := eigval ROps.ROps Kx Ky u v Kz lx ly in
+    is_lim_seq (fun n => Cmod (Cminus
+        (Cmult qh (C05Proofs.prodE3 ROps.ROps lam (map RtoC (repeat (H / INR (S n))%R (S n))) (S n)))
+        (Cmult qh (ROps.Cexp (Copp (Cmult lam (RtoC H))))))) (Finite 0)).
+Proof.
+  exact (conj ComplexOrder.shoot_minus_analytic_complex ComplexOrder.uniform_grid_converges_complex).
+Qed.
+Goal True. idtac "THEOREM C01_convergence_partial". Abort. Print Assumptions C01_convergence_partial.
